@@ -62,3 +62,23 @@ Definition scanner_positions_ref : list string := [
 
 (* a single-byte (ASCII) character: what `is_alpha` / `is_digit` of scanner.rs accept *)
 Definition ascii_byte (b : byte) : bool := N.ltb (bN b) 128.
+
+(* Round 9.  HOST RECURSION.  The call cycles among the functions of scanner.rs and compiler.rs (by name; regenerated:
+   YVGen.Tokens.host_recursion_gen, translator/translate_c03.py host_recursion).  The property bounds the NESTING of a
+   text, not its LENGTH: compile may use host stack in proportion to the nesting depth only.  That holds of the code
+   exactly when every cycle is entered once per nesting level:
+   - scanner.rs has NO cycle: scan_token, skip_whitespace, string, number, identifier are loops; a run of comments /
+     blank lines / characters of any length costs no stack;
+   - compiler.rs has ONE cycle by name, the statement grammar: declaration -> statement -> block / if / while / for /
+     try -> declaration, fn / class / method bodies -> block.  Each round through it opens a `{` (or an `else if`):
+     nesting.  The sequence of declarations of a block is the `while` loop of block() / parse(), not a self call.
+   - the expression grammar recurses through the RULES table (fn pointers, not calls by name): parse_precedence ->
+     prefix / infix handler -> parse_precedence, once per operand that is NESTED in the grammar (grouping, unary,
+     the right operand of a binary operator; `and` / `or` / assignment / lambda bodies are right-recursive).
+   A loop rewritten as a self call (`return self.scan_token()` after a comment, `self.declaration()` at the end of
+   declaration) adds a row and breaks `C03_host_recursion`; the driver's length-scale family (tools/props/C03.py,
+   scale_family: every flat construct x 1k .. 200k repetitions on a 1 MiB stack, confirmed on the CLI's 8 MiB) produces
+   the text that overflows. *)
+Definition host_recursion_ref : list string := [
+  "compiler.rs|cycle|block,class_declaration,declaration,fn_declaration,for_statement,function,if_statement,method,statement,try_statement,while_statement"
+].
